@@ -183,7 +183,8 @@ def run(ctx):
         call, cone = [], []
         for mi, model0 in enumerate(models):
             nq[dname] = len(drv.queries(model0))
-            da = min(d_all, getattr(drv, "max_depth", d_all))
+            da = max(min(d_all, getattr(drv, "max_depth", d_all)),
+                     getattr(drv, "min_depth", 0))
             for h in histories(drv, model0, da):
                 call.append([dname, mi, h])
             for h in histories(drv, model0, min(d_one, da)):
